@@ -371,6 +371,10 @@ Export == pc \in {"done", "nomatch", "panic"} => PrintT(ToJson(CaseClass))
 IsPrefixOf(p, q) == Len(p) <= Len(q) /\ SubSeq(q, 1, Len(p)) = p
 IsSuffixOf(p, q) == Len(p) <= Len(q) /\ SubSeq(q, Len(q) - Len(p) + 1, Len(q)) = p
 IsInfixOf(p, q) == \E i \in 0..(Len(q) - Len(p)) : SubSeq(q, i + 1, i + Len(p)) = p
+\* A leaf's path is the sequence of object keys and (decimal) array indexes that lead to it; a listed path covers
+\* the leaf if it is a prefix of it, element by element as TEXT: an element addresses the member of an object with
+\* that key and the element of an array at that index alike -- also an all-digit element such as `sessions.42`
+\* (mechanism M_NumericKeyAddressesObjectMember, see MaskPath.tla)
 Listed(paths, path) == \E i \in 1..Len(paths) : IsPrefixOf(paths[i], path)
 
 \* does mask number i look at the leaf at `path`?  its own list overrides the plugin's; a listed field
